@@ -69,7 +69,7 @@ pub fn to_pointer(p: &[PathElem]) -> Vec<PointerNode> {
 #[allow(dead_code)]
 pub struct Embedded {
     #[serde(default)]
-    pub a: Option<Value>,
+    pub a: Value,
     #[serde(default)]
     pub b: Option<String>,
     #[serde(default)]
